@@ -85,7 +85,11 @@ func genInput(r *rand.Rand, limit int) []byte {
 			n = 1
 		}
 		f := strings.Repeat(string(rune('a'+r.Intn(26))), n)
-		toks := []string{"<134>1", "2021-03-04T05:06:07Z", "h1", "appA", "1001", "src1", "-", "[Cls] big"}
+		// the message may carry a class the configurations extract and the Fluentd output inlines again in front of the
+		// message ("class=<class> "): what the serializer writes for such a record is longer than the sum of its fields, which
+		// matters exactly when the record no longer fits the fixed buffer (seeded c07-s7)
+		msg := []string{"[Cls] big", "[MyClass] - big", "[" + strings.Repeat("C", 30+r.Intn(70)) + "] - big", "[" + strings.Repeat("C", 99) + "] - big"}[r.Intn(4)]
+		toks := []string{"<134>1", "2021-03-04T05:06:07Z", "h1", "appA", "1001", "src1", "-", msg}
 		toks[2+r.Intn(5)] = f
 		return []byte(strings.Join(toks, " "))
 	case 6: // oversized / boundary message with multi-byte characters at the cut
